@@ -51,6 +51,15 @@ def build_harness():
     lock_dst = os.path.join(HARNESS, "Cargo.lock")
     if not os.path.exists(lock_dst):
         shutil.copy(lock_src, lock_dst)
+    # The `repo` symlink may have been re-pointed (scratch copy <-> /repo).  cargo's freshness check is
+    # mtime based and the path "../repo/..." stays the same, so a library built from the other tree
+    # could be reused silently: forget the library's artefacts whenever the real path changes.
+    stamp = os.path.join(BUILD, "repo_realpath")
+    os.makedirs(BUILD, exist_ok=True)
+    if not os.path.exists(stamp) or open(stamp).read() != REPO:
+        if os.path.exists(os.path.join(BUILD, "target")):
+            sh(["cargo", "clean", "--offline", "-p", "cwe_checker_lib"], cwd=HARNESS, timeout=600, check=False)
+        open(stamp, "w").write(REPO)
     t = time.time()
     p = sh(["cargo", "build", "--offline", "--bin", "cwe_conf"], cwd=HARNESS, timeout=3600, check=False)
     if p.returncode != 0:
